@@ -311,7 +311,7 @@ var $newType = (size, kind, string, named, pkg, exported, constructor) => {
                                 /* A method in the value method set of the embedded struct works on a copy of it. */
                                 v = $clone(v, f.typ.kind === $kindPtr ? f.typ.elem : f.typ);
                             }
-                            if (v.$val === undefined) {
+                            if (v.$val === undefined && f.typ.kind !== $kindInterface) {
                                 v = new f.typ(v);
                             }
                             return v[m.prop](...args);
